@@ -24,7 +24,7 @@ theorem dedupFirst_sublist : ∀ (l : List V), (dedupFirst l).Sublist l
   | [] => by simp [dedupFirst]
   | x :: l => by
     simp only [dedupFirst]
-    exact Sublist.cons₂ _ ((filter_sublist).trans (dedupFirst_sublist l))
+    exact Sublist.cons_cons _ ((filter_sublist).trans (dedupFirst_sublist l))
 
 theorem dedupFirst_filter (p : V → Bool) : ∀ (l : List V), dedupFirst (l.filter p) = (dedupFirst l).filter p
   | [] => by simp [dedupFirst]
@@ -41,8 +41,11 @@ theorem dedupFirst_filter (p : V → Bool) : ∀ (l : List V), dedupFirst (l.fil
         by_cases ha : a = x
         · subst ha; simp [h]
         · simp [ha]
-      rw [filter_cons_of_neg h, filter_filter]
+      rw [filter_filter]
       exact filter_congr this
+
+theorem idxOf_cons_ne' {a x : V} (l : List V) (h : x ≠ a) : (x :: l).idxOf a = l.idxOf a + 1 := by
+  rw [idxOf_cons]; simp [h]
 
 /-- first-occurrence order: the first positions in `l` of the elements of `dedupFirst l` increase. -/
 theorem dedupFirst_order : ∀ (l : List V), (dedupFirst l).Pairwise fun a b => l.idxOf a < l.idxOf b
@@ -53,13 +56,13 @@ theorem dedupFirst_order : ∀ (l : List V), (dedupFirst l).Pairwise fun a b => 
     constructor
     · intro b hb
       have hbx : b ≠ x := by simpa using (mem_filter.mp hb).2
-      rw [idxOf_cons_self, idxOf_cons_ne _ (Ne.symm hbx)]
+      rw [idxOf_cons_self, idxOf_cons_ne' _ (Ne.symm hbx)]
       exact Nat.succ_pos _
     · refine (ih.filter _).imp_of_mem ?_
       intro a b ha hb hab
       have hax : a ≠ x := by simpa using (mem_filter.mp ha).2
       have hbx : b ≠ x := by simpa using (mem_filter.mp hb).2
-      rw [idxOf_cons_ne _ (Ne.symm hax), idxOf_cons_ne _ (Ne.symm hbx)]
+      rw [idxOf_cons_ne' _ (Ne.symm hax), idxOf_cons_ne' _ (Ne.symm hbx)]
       exact Nat.succ_lt_succ hab
 
 /-! ## insert-if-absent folds -/
@@ -88,7 +91,9 @@ theorem foldl_insNew (l : List V) : ∀ (acc : List V),
       · simp [ha]
 
 theorem foldl_insNew_nil (l : List V) : l.foldl insNew [] = dedupFirst l := by
-  rw [foldl_insNew]; simp
+  rw [foldl_insNew]
+  have : l.filter (fun v => !decide (v ∈ ([] : List V))) = l := by simp
+  rw [this]; rfl
 
 /-! ## the dictionary -/
 
@@ -168,20 +173,14 @@ theorem buildDict_eq {akey : Nat → Nat} (hk : ∀ i j, akey i = akey j → i =
   have := buildDict_attach hk occs order []
   simpa [buildDict, attach, foldl_insNew_nil] using this
 
+theorem filterMap_range_take (l : List V) : ∀ n, (List.range n).filterMap (fun i => l[i]?) = l.take n
+  | 0 => by simp
+  | n + 1 => by
+    rw [range_succ, filterMap_append, filterMap_range_take l n, take_succ]
+    cases h : l[n]? <;> simp [h]
+
 theorem filterMap_getElem?_range (l : List V) : (List.range l.length).filterMap (fun i => l[i]?) = l := by
-  apply ext_getElem?
-  intro i
-  induction l using List.reverseRecOn generalizing i with
-  | nil => simp
-  | append_singleton l x ih =>
-    rw [length_append, length_singleton, range_succ, filterMap_append]
-    have h1 : (range l.length).filterMap (fun i => (l ++ [x])[i]?) = l := by
-      rw [← (show (range l.length).filterMap (fun i => l[i]?) = l from ext_getElem? (fun i => ih i))]
-      apply filterMap_congr
-      intro a ha
-      rw [(show (range l.length).filterMap (fun i => l[i]?) = l from ext_getElem? (fun i => ih i))]
-      exact getElem?_append_left (mem_range.mp ha)
-    rw [h1]; simp
+  rw [filterMap_range_take, take_length]
 
 /-! ## the pre-order walk -/
 
@@ -214,60 +213,66 @@ theorem keys_foldl_seenInsert (l : List V) : ∀ (m : Seen),
 theorem keys_seenOf (vs : List V) : (seenOf vs).map (·.1) = dedupFirst vs := by
   simp [seenOf, keys_foldl_seenInsert, foldl_insNew_nil]
 
-theorem flagIn_seenInsert_ne (m : Seen) {x v : V} (h : x ≠ v) : flagIn (seenInsert m x) v = flagIn m v := by
-  unfold seenInsert flagIn
+theorem comp_flag (x v : V) :
+    ((fun e : V × Bool => e.1 == v) ∘ fun e : V × Bool => if (e.1 == x) = true then (e.1, false) else e) =
+      fun e => e.1 == v := by
+  funext e; simp only [Function.comp]; split <;> rfl
+
+theorem any_key_iff (m : Seen) (v : V) : (m.any fun e => e.1 == v) = decide (v ∈ m.map (·.1)) := by
+  rw [Bool.eq_iff_iff]
+  simp only [any_eq_true, beq_iff_eq, decide_eq_true_eq, mem_map]
+  constructor
+  · rintro ⟨e, he, rfl⟩; exact ⟨e, he, rfl⟩
+  · rintro ⟨e, he, rfl⟩; exact ⟨e, he, rfl⟩
+
+theorem find_seenInsert_ne (m : Seen) {x v : V} (h : x ≠ v) :
+    (seenInsert m x).find? (fun e => e.1 == v) = m.find? (fun e => e.1 == v) := by
+  unfold seenInsert
   split
-  · congr 1
-    induction m with
-    | nil => rfl
-    | cons e m ih =>
-      simp only [map_cons, find?_cons]
-      by_cases he : e.1 = x
-      · have : ¬ e.1 = v := fun h' => h (he ▸ h')
-        simp [he, this, h]
-        simpa [he] using ih
-      · simp only [he, beq_iff_eq, if_false]
-        by_cases hv : e.1 = v
-        · simp [hv]
-        · simp [hv]; simpa using ih
-  · rw [find?_append]
-    have : (if (x == v) = true then some (x, true) else none : Option (V × Bool)) = none := by simp [h]
-    simp [find?_cons, h]
+  · rw [find?_map, comp_flag]
+    cases hf : m.find? (fun e => e.1 == v) with
+    | none => rfl
+    | some e =>
+      have h1 : e.1 = v := by simpa using find?_some hf
+      have hne : ¬ e.1 = x := fun h' => h (h'.symm.trans h1)
+      simp [hne]
+  · rw [find?_append]; simp [h]
+
+theorem flagIn_seenInsert_ne (m : Seen) {x v : V} (h : x ≠ v) : flagIn (seenInsert m x) v = flagIn m v := by
+  unfold flagIn; rw [find_seenInsert_ne m h]
 
 theorem flagIn_seenInsert_self (m : Seen) (v : V) :
     flagIn (seenInsert m v) v = !decide (v ∈ m.map (·.1)) := by
   unfold seenInsert flagIn
+  rw [any_key_iff]
   by_cases h : v ∈ m.map (·.1)
-  · have hany : (m.any fun e => e.1 == v) = true := by
-      simp only [any_eq_true, beq_iff_eq]
+  · rw [if_pos (by simpa using h), find?_map, comp_flag]
+    cases hf : m.find? (fun e => e.1 == v) with
+    | none =>
+      exfalso
+      rw [find?_eq_none] at hf
       obtain ⟨e, he, rfl⟩ := mem_map.mp h
-      exact ⟨e, he, rfl⟩
-    simp only [hany, if_true, h, decide_true, Bool.not_true]
-    clear hany
-    induction m with
-    | nil => simp at h
-    | cons e m ih =>
-      simp only [map_cons, find?_cons]
-      by_cases he : e.1 = v
-      · simp [he]
-      · have hm : v ∈ m.map (·.1) := by
-          simp only [map_cons, mem_cons] at h
-          rcases h with h | h
-          · exact absurd h.symm he
-          · exact h
-        simp only [he, beq_iff_eq, if_false]
-        exact ih hm
-  · have hany : (m.any fun e => e.1 == v) = false := by
-      rw [Bool.eq_false_iff]
-      intro hc
-      simp only [any_eq_true, beq_iff_eq] at hc
-      obtain ⟨e, he, rfl⟩ := hc
-      exact h (mem_map.mpr ⟨e, he, rfl⟩)
-    have hfind : m.find? (fun e => e.1 == v) = none := by
+      exact hf e he (by simp)
+    | some e =>
+      have h1 : e.1 = v := by simpa using find?_some hf
+      simp [h1, h]
+  · have hfind : m.find? (fun e => e.1 == v) = none := by
       rw [find?_eq_none]
       intro e he hc
       exact h (mem_map.mpr ⟨e, he, by simpa using hc⟩)
-    simp [hany, h, find?_append, hfind]
+    rw [if_neg (by simpa using h), find?_append, hfind]
+    simp [h]
+
+theorem mem_insNew {acc : List V} {x v : V} : v ∈ insNew acc x ↔ v ∈ acc ∨ v = x := by
+  unfold insNew
+  by_cases h : x ∈ acc
+  · simp only [h, if_true]
+    constructor
+    · exact Or.inl
+    · rintro (h' | rfl)
+      · exact h'
+      · exact h
+  · simp [h]
 
 theorem flagIn_foldl (v : V) (l : List V) : ∀ (m : Seen),
     flagIn (l.foldl seenInsert m) v =
@@ -279,27 +284,30 @@ theorem flagIn_foldl (v : V) (l : List V) : ∀ (m : Seen),
     rw [foldl_cons, ih]
     by_cases hx : x = v
     · subst hx
-      simp only [mem_cons, true_or, if_true, count_cons_self, keys_seenInsert]
+      have hk : x ∈ (seenInsert m x).map (·.1) := by rw [keys_seenInsert, mem_insNew]; exact Or.inr rfl
+      rw [if_pos (mem_cons_self), count_cons_self]
       by_cases hl : x ∈ l
-      · have hc : l.count x ≥ 1 := by
-          have := count_pos_iff.mpr hl
-          omega
+      · have hc : l.count x ≥ 1 := count_pos_iff.mpr hl
         have : (l.count x + 1 == 1) = false := by
           rw [Bool.eq_false_iff]; simp; omega
-        simp [hl, insNew, this]
-        by_cases hm : x ∈ m.map (·.1) <;> simp [hm] <;> simp at hm <;> simp [hm]
+        rw [if_pos hl, this]
+        simp [hk]
       · have hc : l.count x = 0 := count_eq_zero.mpr hl
-        simp only [hl, if_false, flagIn_seenInsert_self, hc]
+        rw [if_neg hl, flagIn_seenInsert_self, hc]
         simp
     · have hvx : v ≠ x := fun h => hx h.symm
-      simp only [mem_cons, hvx, false_or, keys_seenInsert, flagIn_seenInsert_ne m hx]
+      have hmem : (v ∈ x :: l) ↔ v ∈ l := by simp [hvx]
       have hcnt : (x :: l).count v = l.count v := by
         rw [count_cons_of_ne]; exact fun h => hx h
-      rw [hcnt]
-      have hmem : decide (v ∈ insNew (map (fun x => x.1) m) x) = decide (v ∈ map (fun x => x.1) m) := by
-        unfold insNew
-        by_cases hm : x ∈ map (fun x => x.1) m <;> simp [hm, hvx]
-      rw [hmem]
+      have hkeys : (v ∈ (seenInsert m x).map (·.1)) ↔ v ∈ m.map (·.1) := by
+        rw [keys_seenInsert, mem_insNew]
+        constructor
+        · rintro (h | h)
+          · exact h
+          · exact absurd h hvx
+        · exact Or.inl
+      rw [flagIn_seenInsert_ne m hx, hcnt]
+      simp only [hmem, hkeys]
 
 theorem flagIn_seenOf (vs : List V) (v : V) : flagIn (seenOf vs) v = (vs.count v == 1) := by
   unfold seenOf
